@@ -55,12 +55,16 @@ const preludeAbs = `(set-option :produce-models true)
 
 const smtPrelude = `(declare-datatypes ((LV 0)) (((GoNil) (LNilV) (LBoolV (lvb Bool)) (LNumV (lvn F64)) (LStrV (lvs Str)) (LTabV (lvt Int)) (LFnV (lvf Int)) (LUdV (lvu Int)) (LThV (lvh Int)) (LChV (lvc Int)))))
 (declare-fun slen (Str) Int)
+(declare-const sempty Str)
+(assert (= (slen sempty) 0))
 (assert (forall ((s Str)) (! (>= (slen s) 0) :pattern ((slen s)))))
 (declare-fun sbyte (Str Int) Int)
 (assert (forall ((s Str) (i Int)) (! (and (<= 0 (sbyte s i)) (<= (sbyte s i) 255)) :pattern ((sbyte s i)))))
 (declare-fun substr (Str Int Int) Str)
 (assert (forall ((s Str) (a Int) (b Int)) (! (=> (and (<= 0 a) (<= a b) (<= b (slen s))) (= (slen (substr s a b)) (- b a))) :pattern ((substr s a b)))))
 (assert (forall ((s Str) (a Int) (b Int) (i Int)) (! (=> (and (<= 0 a) (<= a b) (<= b (slen s)) (<= 0 i) (< i (- b a))) (= (sbyte (substr s a b) i) (sbyte s (+ a i)))) :pattern ((sbyte (substr s a b) i)))))
+(assert (forall ((s Str) (a Int)) (! (= (substr s a a) sempty) :pattern ((substr s a a)))))
+(assert (forall ((s Str)) (! (= (substr s 0 (slen s)) s) :pattern ((substr s 0 (slen s))))))
 (declare-fun sconcat (Str Str) Str)
 (assert (forall ((a Str) (b Str)) (! (= (slen (sconcat a b)) (+ (slen a) (slen b))) :pattern ((sconcat a b)))))
 (declare-fun slt (Str Str) Bool)
